@@ -97,11 +97,18 @@ func (e *Engine) havocGuarded(st *State, m *Monitor, base string, stt types.Type
 		}
 		ft := s.Field(i).Type()
 		hn, hs := fieldHeapName(stt, s, i)
-		// the field itself
-		v := st.freshConst("mon_"+g, sortOf(ft))
-		st.assume(typeInv(v, ft))
-		st.setHeap(hn, hs, store(st.heap(hn, hs), base, v))
-		st.assumeAllocated(v, ft)
+		var v string
+		if _, isMap := ft.Underlying().(*types.Map); isMap {
+			// map-typed guarded fields are reference-stable (stores to them are only allowed in initialisers: see
+			// guardedFieldStore); the lock protects the contents
+			v = sel(st.heap(hn, hs), base)
+		} else {
+			// the field itself
+			v = st.freshConst("mon_"+g, sortOf(ft))
+			st.assume(typeInv(v, ft))
+			st.setHeap(hn, hs, store(st.heap(hn, hs), base, v))
+			st.assumeAllocated(v, ft)
+		}
 		// what it owns: contents of the map / slice it refers to
 		switch t := ft.Underlying().(type) {
 		case *types.Map:
@@ -112,9 +119,10 @@ func (e *Engine) havocGuarded(st *State, m *Monitor, base string, stt types.Type
 			st.setHeap(vn, vs, store(st.heap(vn, vs), v, vv))
 			// maps of maps: inner maps are owned too (their contents are unknown after acquire)
 			if it, ok := t.Elem().Underlying().(*types.Map); ok {
-				idn, ivn, _, _, _ := mapHeapNames(it)
+				idn, ivn, ids, ivs, _ := mapHeapNames(it)
 				if idn != dn {
-					st.heap(idn, st.hsort[idn])
+					st.heap(idn, ids)
+					st.heap(ivn, ivs)
 					st.havocHeap(idn)
 					st.havocHeap(ivn)
 				}
@@ -271,6 +279,9 @@ func (e *Engine) lockCheckAddr(st *State, fr *Frame, p Val, write bool, pos toke
 	if p.A == nil || p.A.Kind != AField {
 		return
 	}
+	if write && len(p.A.Path) == 0 {
+		e.guardedFieldStore(st, fr, p.A, pos, ins)
+	}
 	e.lockCheckField(st, fr, p.A.STT, p.A.ST.Field(p.A.Field).Name(), p.A.Base, write, pos, ins)
 }
 
@@ -406,6 +417,24 @@ func (e *Engine) lockCheckMapVal(st *State, fr *Frame, ins ssa.Instruction, writ
 // type invariants (object invariants assumed at entry of methods, checked at exit)
 
 func (e *Engine) assumeTypeInvariants(st *State, fn *ssa.Function, env *Env) {
+	// captured variables of closure units
+	for _, fv := range fn.FreeVars {
+		v, ok := env.vars[fv.Name()]
+		if !ok || v.T == nil {
+			continue
+		}
+		if _, isPtr := v.T.Underlying().(*types.Pointer); !isPtr {
+			continue
+		}
+		ts := e.typeSpecFor(deref(v.T))
+		if ts == nil || len(ts.Invs) == 0 {
+			continue
+		}
+		tenv := &Env{eng: e, st: st, pkg: e.typesPkg(ts.Pkg), vars: map[string]Val{ts.RecvVar: v}, where: "invariant of " + ts.Name}
+		for _, inv := range ts.Invs {
+			st.assume(implies(not(eq(v.S, "0")), tenv.evalBool(inv.Expr)))
+		}
+	}
 	for _, p := range fn.Params {
 		ts := e.typeSpecFor(deref(p.Type()))
 		if ts == nil || len(ts.Invs) == 0 {
@@ -544,8 +573,13 @@ func (e *Engine) modelOnce(st *State, fr *Frame, once Val, f Val, pos token.Pos,
 		_ = i
 		_ = p
 	}
+	st.onceDepth++
+	if spec == nil {
+		nf.onReturn = func(s *State, results []Val) { s.onceDepth-- }
+	}
 	if spec != nil {
 		nf.onReturn = func(s *State, results []Val) {
+			s.onceDepth--
 			env := mkEnv(s)
 			for i, en := range spec.Ensures {
 				nm := en.Name
@@ -588,4 +622,36 @@ func (e *Engine) modelCondWait(st *State, fr *Frame, cond Val, pos token.Pos, in
 			return
 		}
 	}
+}
+
+// guardedFieldStore: a map-typed field guarded by a monitor may only be assigned by an initialiser (inside a
+// sync.Once closure or a function named by the field's immutable_after clause); monitors rely on that.
+func (e *Engine) guardedFieldStore(st *State, fr *Frame, a *Addr, pos token.Pos, ins ssa.Instruction) {
+	f := a.ST.Field(a.Field)
+	if _, isMap := f.Type().Underlying().(*types.Map); !isMap {
+		return
+	}
+	guarded := false
+	for _, m := range e.monitorsOfType(a.STT) {
+		for _, g := range m.Guards {
+			if g == f.Name() {
+				guarded = true
+			}
+		}
+	}
+	if !guarded {
+		return
+	}
+	if st.onceDepth > 0 || strings.HasPrefix(a.Base, "new_") {
+		return // initialisation of an object that is not shared yet
+	}
+	if own := e.ownerOf(a.STT, f.Name()); strings.HasPrefix(own, "immutable_after") {
+		for _, fn := range strings.Fields(own)[1:] {
+			if e.inFunctionNamed(st, fn) {
+				return
+			}
+		}
+	}
+	name := e.siteName(st, fr, "guarded-field-store["+f.Name()+"]", pos, ins)
+	st.oblige("guarded-field-store", name, "false", pos)
 }
